@@ -192,6 +192,10 @@ fn vis_edit(v: &syn::Visibility, edits: &mut Vec<Edit>, seq: &mut usize) {
 const KEEP_DERIVES: &[&str] = &["Clone", "Copy", "PartialEq", "Eq", "Hash", "PartialOrd", "Ord"];
 
 fn attr_edits(attrs: &[syn::Attribute], edits: &mut Vec<Edit>, seq: &mut usize, src: &str) {
+    attr_edits_x(attrs, edits, seq, src, &[])
+}
+
+fn attr_edits_x(attrs: &[syn::Attribute], edits: &mut Vec<Edit>, seq: &mut usize, src: &str, drop_derives: &[String]) {
     for a in attrs {
         let (s, mut e) = br(a.span());
         // swallow the trailing newline + indentation so that no blank lines pile up
@@ -208,7 +212,7 @@ fn attr_edits(attrs: &[syn::Attribute], edits: &mut Vec<Edit>, seq: &mut usize, 
             let _ = a.parse_nested_meta(|m| {
                 if let Some(id) = m.path.segments.last() {
                     let n = id.ident.to_string();
-                    if KEEP_DERIVES.contains(&n.as_str()) {
+                    if KEEP_DERIVES.contains(&n.as_str()) && !drop_derives.contains(&n) {
                         keep.push(n);
                     }
                 }
@@ -642,7 +646,7 @@ fn gen_fn(ctx: &mut Ctx, fs_: &FnSpec) -> R<()> {
         let stmt_text = &text[st.0..st.1];
         let stmt_e3 = stmt_text.replacen("self.storage.txn(", "(match self.storage.txn(", 1).replacen(")?;", ") { Ok(verif_v) => verif_v, Err(verif_e) => return Err(verif_from(verif_e)) });", 1);
         twin = Some(format!(
-            "    // E9 twin: exactly the first statement of {p} (`{orig}`), then hand the transaction out\n    fn {name}__open(&self, {argname}: Uuid) -> (r: Result<Box<dyn StorageTxn + '_>, ServerError>)\n        requires\n            self.can_open(),\n        ensures\n            r is Ok ==> open_post(r->Ok_0@, {argname}),\n    {{\n        {stmt}\n        Ok(txn)\n    }}\n",
+            "    // E9 twin: exactly the first statement of {p} (`{orig}`), then hand the transaction out\n    fn {name}__open(&self, {argname}: Uuid) -> (r: Result<Box<dyn StorageTxn + '_>, ServerError>)\n        requires\n            self.can_open(),\n        ensures\n            r is Ok ==> open_post(r->Ok_0@, {argname}) && r->Ok_0.inv(),\n    {{\n        {stmt}\n        Ok(txn)\n    }}\n",
             p = fs_.path,
             orig = stmt_text.trim(),
             name = sig.ident,
@@ -940,7 +944,23 @@ fn gen_item(ctx: &mut Ctx, file: &str, path: &str, opts: &[String], extra: &[Cla
     let mut clauses = vec![];
     match it {
         syn::Item::Struct(s) => {
-            attr_edits(&s.attrs, &mut edits, &mut seq, text);
+            // `noderive:<Trait>`: that derive is replaced by a hand-written, specified impl in the contract file (A2)
+            let dd: Vec<String> = opts.iter().filter_map(|o| o.strip_prefix("noderive:").map(|x| x.to_string())).collect();
+            attr_edits_x(&s.attrs, &mut edits, &mut seq, text, &dd);
+            for o in opts {
+                if let Some(rest) = o.strip_prefix("addfield:") {
+                    // ghost field appended to a braced struct (E11)
+                    let (fname, fty) = rest.split_once(':').ok_or(Fail("bad addfield".into()))?;
+                    if let syn::Fields::Named(n) = &s.fields {
+                        let (c, _) = br(n.brace_token.span.close());
+                        seq += 1;
+                        edits.push(Edit { start: c, end: c, text: format!("    {fname}: {fty},\n"), rule: "E11".into(), seq, marks: vec![] });
+                        rules.push("E11".to_string());
+                    } else {
+                        return fail(format!("anchor lost: {path} is not a braced struct"));
+                    }
+                }
+            }
             vis_edit(&s.vis, &mut edits, &mut seq);
             for f in &s.fields {
                 attr_edits(&f.attrs, &mut edits, &mut seq, text);
